@@ -22,11 +22,11 @@ for l in (0, 1, 2, 7):
             quick = l == 0 and (mask, order) in ((7, 0), (0, 3), (5, 1))
             if l >= 2 and order not in (0, 4):
                 continue
-            inst(P, 'c19_supports_l%d_m%d_o%d' % (l, mask, order), 'c19::supports(%d, %d, %d)' % (l, mask, order), tier='quick' if quick else 'thorough', unwind=26, unwindset=uw(l),
+            inst(P, 'c19_supports_l%d_m%d_o%d' % (l, mask, order), 'c19::supports(%d, %d, %d)' % (l, mask, order), tier='quick' if quick else ('thorough' if l == 0 else 'deep'), unwind=26, unwindset=uw(l),
                  stubs=ALLOC, cap=1200, cap_thorough=5400, mem=14, weight=10 * l + bin(7 - mask).count('1'),
                  desc='BitVector %d symbolic bits written with support subset %d (1 rank, 2 select, 4 select_zero), loaded, rest enabled in order %d: equals the fully enabled original; idempotent; bits unchanged' % (l, mask, order),
                  shape={'len': l, 'written_supports': mask, 'enable_order': order})
-for (l, tier) in ((1, 'thorough'), (65, 'thorough'), (513, 'thorough')):
+for (l, tier) in ((1, 'deep'), (65, 'deep'), (513, 'deep')):
     for written in (False, True):
         inst(P, 'c19_rank_support_l%d_%s' % (l, 'written' if written else 'absent'), 'c19::rank_support(%d, %s)' % (l, 'true' if written else 'false'), tier=tier, unwind=26,
              unwindset={r'RankSupport::new$#0': 10, r'RankSupport::new$#1': 5, r'memcmp': 200, r'c01::any_bits': 20}, cap=900, cap_thorough=3600, mem=30,
@@ -37,7 +37,7 @@ for (l, mask, tier) in ((65, 1, 'quick'), (0, 7, 'quick'), (65, 0, 'thorough'), 
          cap=1200, mem=14, desc='skip_option over the three optional supports of a serialized BitVector (%d bits, supports %d) lands exactly on the next value' % (l, mask),
          shape={'len': l, 'written_supports': mask})
 
-for (l, tier) in ((7, 'quick'), (100, 'quick'), (600, 'thorough')):
+for (l, tier) in ((7, 'quick'), (100, 'quick'), (600, 'deep')):
     for value in (False, True):
         inst(['C19', 'C06'], 'c19_uniform_l%d_%s' % (l, 'ones' if value else 'zeros'), 'c19::uniform(%d, %s)' % (l, 'true' if value else 'false'), tier=tier, unwind=max(l, 64) + 4,
              unwindset={r'memcmp': 600}, cap=900, mem=10,
